@@ -685,7 +685,7 @@ type fault struct {
 }
 
 // every single fault of the honest answer h for the queried nonce
-func (g *gen) faults(h *Ans, nonce uint64, ti *treeInfo, allSibKinds bool) []fault {
+func (g *gen) faults(h *Ans, nonce uint64, ti *treeInfo, nSibKinds int, pad240 bool) []fault {
 	var fs []fault
 	add := func(name string, reject, same bool, edit func(a *Ans)) {
 		a := h.clone()
@@ -741,8 +741,16 @@ func (g *gen) faults(h *Ans, nonce uint64, ti *treeInfo, allSibKinds bool) []fau
 	for i := range h.Sibs {
 		i := i
 		kinds := sibKinds
-		if !allSibKinds {
-			kinds = []string{sibKinds[g.rng.Intn(len(sibKinds))]}
+		if nSibKinds < len(sibKinds) || len(h.Sibs) > 12 {
+			n := nSibKinds
+			if n >= len(sibKinds) {
+				n = 2
+			}
+			o := g.rng.Intn(len(sibKinds))
+			kinds = nil
+			for j := 0; j < n; j++ {
+				kinds = append(kinds, sibKinds[(o+j)%len(sibKinds)])
+			}
 		}
 		for _, k := range kinds {
 			hv := dec(h.Sibs[i])
@@ -789,7 +797,7 @@ func (g *gen) faults(h *Ans, nonce uint64, ti *treeInfo, allSibKinds bool) []fau
 			a.Sibs = append(a.Sibs, "0")
 		}
 	})
-	if allSibKinds || g.rng.Intn(10) == 0 {
+	if pad240 {
 		add("sibs:pad-zero-to-240", true, false, func(a *Ans) {
 			for len(a.Sibs) < 240 {
 				a.Sibs = append(a.Sibs, "0")
@@ -988,25 +996,23 @@ func (g *gen) validateStream() error {
 	var plans []plan
 	sizes := []int{0, 1, 2, 3, 7, 40, 300}
 	if g.cfg.Thorough() {
-		sizes = []int{0, 1, 2, 3, 4, 5, 7, 16, 40, 100, 200, 300}
+		sizes = []int{0, 1, 2, 3, 5, 16, 40, 100, 300}
 	}
 	for i, n := range sizes {
 		styles := []string{"clustered", "sparse", "dense"}
-		if !g.cfg.Thorough() {
-			styles = []string{styles[i%3], styles[(i+1)%3]}
-			if n >= 40 {
-				styles = styles[:1]
-			}
-			if n == 300 {
-				styles = []string{"clustered"}
-			}
+		styles = []string{styles[i%3], styles[(i+1)%3]}
+		if !g.cfg.Thorough() && n != 1 && n != 3 {
+			styles = styles[:1]
+		}
+		if n == 300 {
+			styles[0] = "clustered"
 		}
 		for _, s := range styles {
 			plans = append(plans, plan{n, s})
 		}
 	}
 	// random sizes 0..300
-	for i := 0; i < g.cfg.Pick(2, 12); i++ {
+	for i := 0; i < g.cfg.Pick(2, 8); i++ {
 		plans = append(plans, plan{g.rng.Intn(301), []string{"clustered", "sparse", "dense"}[g.rng.Intn(3)]})
 	}
 	for _, pl := range plans {
@@ -1031,11 +1037,11 @@ func (g *gen) validateStream() error {
 			nonce uint64
 		}
 		var qs []query
-		nm := g.cfg.Pick(2, 5)
+		nm := g.cfg.Pick(2, 4)
 		for i := 0; i < nm && i < len(ti.lst); i++ {
 			qs = append(qs, query{"member", ti.lst[g.rng.Intn(len(ti.lst))]})
 		}
-		for i := 0; i < g.cfg.Pick(3, 8) && len(ti.lst) > 0; i++ {
+		for i := 0; i < g.cfg.Pick(3, 6) && len(ti.lst) > 0; i++ {
 			// near miss: shares exactly j low bits with a member
 			m := ti.lst[g.rng.Intn(len(ti.lst))]
 			j := uint(1 + g.rng.Intn(39))
@@ -1046,7 +1052,7 @@ func (g *gen) validateStream() error {
 			x ^= (g.rng.Uint64() >> (j + 1)) << (j + 1)
 			qs = append(qs, query{fmt.Sprintf("near-miss-%d", j), x})
 		}
-		for i := 0; i < g.cfg.Pick(2, 4); i++ {
+		for i := 0; i < g.cfg.Pick(2, 3); i++ {
 			qs = append(qs, query{"non-member", g.rng.Uint64()})
 		}
 		qs = append(qs, query{"zero", 0}, query{"max", ^uint64(0)})
@@ -1087,7 +1093,7 @@ func (g *gen) validateStream() error {
 			if len(g.rep.Samples) < 3 {
 				g.rep.Sample(map[string]any{"tree": spec, "query": q.kind, "nonce": q.nonce, "answer": h, "class": clsName(honestCls)})
 			}
-			for _, f := range g.faults(h, q.nonce, ti, g.cfg.Thorough()) {
+			for _, f := range g.faults(h, q.nonce, ti, g.cfg.Pick(1, 4), g.rng.Intn(g.cfg.Pick(10, 5)) == 0) {
 				fin := base
 				fin.Nonce, fin.Ans, fin.Fault, fin.MustReject = f.nonce, f.ans, f.name, f.reject
 				if f.same {
